@@ -38,7 +38,7 @@ def find_contract(spec):
     """'contracts.c_bip32:PrvCkd' -> contract instance"""
     modname, _, cname = spec.partition(":")
     mod = importlib.import_module(modname)
-    for c in mod.CONTRACTS:
+    for c in list(mod.CONTRACTS) + list(getattr(mod, "CANARIES", [])):
         if type(c).__name__ == cname:
             return c
     raise KeyError(spec)
@@ -62,6 +62,23 @@ def run_item(item):
                 o["target"] = c.target
                 o["name"] = f"{item['pid']}:{c.target.replace('btc_hd_wallet.', '')}#{o['name']}"
                 o.pop("smt2", None)
+            und = [o for o in obls if o["verdict"] == "UNDECIDED"]
+            if und:
+                from pyvc.bounded import bounded_contract
+                b = bounded_contract(c, item.get("seed", 0), n=400 if item.get("tier") == "quick" else 3000,
+                                     budget_s=30 if item.get("tier") == "quick" else 240)
+                if b["verdict"] == "VIOLATED":
+                    failed = (b["replay"].get("failed") or ["bounded"])
+                    obls.append(dict(name=f"{item['pid']}:{c.target.replace('btc_hd_wallet.', '')}#bounded.{failed[0]}",
+                                     kind="bounded", verdict="VIOLATED", contract=item["spec"], target=c.target,
+                                     clause=failed[0], model=b["model"], stubs=b["stubs"], confirmed=True,
+                                     replay=b["replay"], evaluations=b["evaluations"], bound=b["bound"], backend="bounded"))
+                else:
+                    for o in und:
+                        o["verdict"] = "UNDECIDED_BOUNDED_HELD"
+                    obls.append(dict(name=f"{item['pid']}:{c.target.replace('btc_hd_wallet.', '')}#bounded.standin",
+                                     kind="bounded", verdict="HELD", evaluations=b["evaluations"], bound=b["bound"],
+                                     backend="bounded", target=c.target))
             from pyvc.engine import SOURCE
             mod, qn = _split_target(c.target)
             meta = dict(target=c.target, paths=r["paths"], calls=r["calls"], wall=r["wall"],
@@ -201,7 +218,7 @@ def conclude(pid, tier, seed, P, results, t0, verbose):
         if k["property"] == pid:
             kf_by_clause[(k["target"], k["clause"])] = k
     all_obl = [o for r in results for o in r["obligations"]]
-    violations, kf_lines, undecided, errors = [], [], [], []
+    violations, kf_lines, undecided, errors, lost = [], [], [], [], []
     os.makedirs(os.path.join(HERE, "replays", pid), exist_ok=True)
     replay_cache = {}
     for o in all_obl:
@@ -217,6 +234,9 @@ def conclude(pid, tier, seed, P, results, t0, verbose):
         if v == "UNDECIDED":
             undecided.append(o)
             continue
+        if v == "UNDECIDED_BOUNDED_HELD":
+            lost.append(o)
+            continue
         if v in ("REFUTED", "VIOLATED"):
             k = kf_by_clause.get((o.get("target"), o.get("clause")))
             if k is not None:
@@ -225,7 +245,7 @@ def conclude(pid, tier, seed, P, results, t0, verbose):
                     if not any(x[0] == k["id"] for x in kf_lines):
                         kf_lines.append((k["id"], k["what"]))
                     continue
-            rp = None
+            rp = o.get("replay")
             if o.get("kind") == "vc" and o.get("contract"):
                 key = (o["contract"], o["clause"], json.dumps(o.get("model"), sort_keys=True, default=str))
                 if key not in replay_cache:
@@ -244,7 +264,7 @@ def conclude(pid, tier, seed, P, results, t0, verbose):
         safe = hashlib.sha1(o["name"].encode()).hexdigest()[:10]
         rel = f"replays/{pid}/{(o.get('clause') or 'obligation').replace('/', '_')}-{safe}.json"
         rp = o.get("replay") or {}
-        confirmed = rp.get("confirmed") if o.get("kind") == "vc" else o.get("confirmed")
+        confirmed = rp.get("confirmed") if o.get("kind") in ("vc", "bounded") else o.get("confirmed")
         doc = dict(property=pid, obligation=o["name"], clause=o.get("clause"), function=o.get("target"),
                    contract=o.get("contract"), backend=o.get("backend"), model=o.get("model"), stubs=o.get("stubs"),
                    outcome=o.get("outcome"), replay=rp, witness_code=o.get("witness_code"), detail=o.get("detail"),
@@ -289,7 +309,7 @@ def conclude(pid, tier, seed, P, results, t0, verbose):
             samples=samples,
             functions_under_contract=fuc,
             by_backend=by_backend, solver_time_s=round(solver_time, 3),
-            proof_lost=[dict(name=o["name"], reason=o.get("reason")) for o in undecided],
+            proof_lost=[dict(name=o["name"], reason=o.get("reason")) for o in undecided + lost],
             known_findings=[dict(id=i, what=w) for i, w in kf_lines],
             known_finding_obligations=sum(1 for o in all_obl if o["verdict"] == "KNOWN_FINDING"),
             bounded_standins=bounded, canaries=canaries,
@@ -319,6 +339,9 @@ def conclude(pid, tier, seed, P, results, t0, verbose):
           f"undecided={len(undecided)} errors={len(errors)} known={len(kf_lines)} wall={ev['wall_s']}s")
     for i, w in kf_lines:
         print(f"KNOWN-FINDING: property={pid} {i}: {w}")
+    if lost:
+        print(f"  proof lost on {len(lost)} obligation(s) (construct outside the verified subset); bounded stand-in found no violation:",
+              sorted({(o.get('reason') or '')[:100] for o in lost})[:5])
     if verbose or violations or undecided or errors:
         shown = set()
         for o in (violations + undecided + errors):
